@@ -852,6 +852,232 @@ def oracle_update(rep, case, real):
                 return
 
 
+# ----------------------------------------------------------------------------- several consumers of one file
+
+
+def _site_fields(fn, ref, extra, cols, prefix="s0c", hidden="__row0"):
+    fields = [f"{hidden}:"] + _ds_call(fn, ref, extra, None, 2)
+    for ci, col in enumerate(cols):
+        fields.append(f"{prefix}{ci}: ${{{{{hidden}.{col}}}}}")
+    return fields
+
+
+def _for_each_template(name, indent, fn, ref, extra, cols, var, extra_fields=(), friends=None):
+    head = ["for_each:", f"  var: {var}", "  value:"] + _ds_call(fn, ref, extra, None, 4)
+    fields = [f"c{ci}: ${{{{{var}.{col}}}}}" for ci, col in enumerate(cols)] + ["ci: ${{child_index}}"] + list(extra_fields)
+    return _template(name, indent, head, fields, friends=friends)
+
+
+def build_multi_recipe(case, ref, extra):
+    lines = []
+    if case["dialect"] == 3:
+        lines.append("- snowfakery_version: 3")
+    lines.append("- plugin: snowfakery.standard_plugins.datasets.Dataset")
+    cols = case["cols"]
+    shape = case["shape"]
+    if shape == "parallel":
+        for i, c in enumerate(case["consumers"]):
+            lines += _template(f"C{i}", 0, [f"count: {c['q']}"], _site_fields(c["fn"], ref, extra, cols))
+    elif shape == "site_fe":
+        site = _site_fields(case["site_fn"], ref, extra, cols)
+        if case["inner_place"] == "nested":
+            inner = _for_each_template("F", 6, case["inner_fn"], ref, extra, cols, "rec")
+            lines += _template("O", 0, [f"count: {case['p']}"], site + ["child:"] + [ln[4:] for ln in inner])
+        else:
+            inner = _for_each_template("F", 4, case["inner_fn"], ref, extra, cols, "rec")
+            lines += _template("O", 0, [f"count: {case['p']}"], site, friends=inner)
+    else:  # fe_fe
+        if case["inner_place"] == "nested":
+            inner = _for_each_template("F", 6, case["inner_fn"], ref, extra, cols, "rec")
+            lines += _for_each_template("O", 0, case["outer_fn"], ref, extra, cols, "orec",
+                                        extra_fields=["child:"] + [ln[4:] for ln in inner])
+        else:
+            inner = _for_each_template("F", 4, case["inner_fn"], ref, extra, cols, "rec")
+            lines += _for_each_template("O", 0, case["outer_fn"], ref, extra, cols, "orec", friends=inner)
+    return "\n".join(lines) + "\n"
+
+
+def multi_plan(case):
+    """[(table, role, fn, executions or rows)] : what each consumer of the file has to emit"""
+    n = len(case["ds"]["rows"])
+    reps = case["reps"]
+    if case["shape"] == "parallel":
+        return [(f"C{i}", "site", c["fn"], reps * c["q"]) for i, c in enumerate(case["consumers"])]
+    if case["shape"] == "site_fe":
+        return [("O", "site", case["site_fn"], reps * case["p"]), ("F", "for_each", case["inner_fn"], reps * case["p"])]
+    return [("O", "for_each", case["outer_fn"], reps), ("F", "for_each", case["inner_fn"], reps * n)]
+
+
+def run_multi_case(case, folder):
+    ds = case["ds"]
+    ref, extra = materialize(ds, folder)
+    text = build_multi_recipe(case, ref, extra)
+    n = len(ds["rows"])
+    expected = sum(cnt * (n if role == "for_each" else 1) for _, role, _, cnt in multi_plan(case))
+    with instrument(case["seed"]) as log:
+        res = run_generate(text, reps=case["reps"], row_cap=expected * 2 + 50, folder=folder)
+    tables = {}
+    for t, fields in res.rows:
+        tables.setdefault(t, []).append(dict(fields))
+    return {"outcome": res.outcome, "error": res.error, "tables": tables, "passes": passes_by_iterator(log), "recipe": text}
+
+
+def oracle_consumer(rep, case, rows, fn, label):
+    """ONE site consumer, looked at alone: iterate -> record k mod n; shuffle -> every cycle of n of
+    THIS consumer is a permutation of the file (whatever the other consumers of the file do)."""
+    n = len(case["ds"]["rows"])
+    prefix = "s0c"
+    if fn == "iterate":
+        for k, row in enumerate(rows):
+            bad = row_matches_record(row, prefix, case, k % n)
+            if bad:
+                rep.violation("C17:iterate-wrong-record",
+                              f"{label}: its consuming row {k} does not carry record {k % n} of {n} (other consumers of the same "
+                              f"file must not move its position): column {bad[0][0]!r}", case, bad[0][1], bad[0][2])
+                return False
+        return True
+    idxs = [row_record_index(r, prefix, case) for r in rows]
+    if None in idxs:
+        rep.violation("C17:iterate-wrong-record", f"{label}: a consuming row carries no record of the file", case, None,
+                      rows[idxs.index(None)])
+        return False
+    for k, (row, i) in enumerate(zip(rows, idxs)):
+        bad = row_matches_record(row, prefix, case, i)
+        if bad:
+            rep.violation("C17:iterate-wrong-record", f"{label}: row {k} mixes columns of different records ({bad[0][0]!r})", case,
+                          bad[0][1], bad[0][2])
+            return False
+    for c in range(0, len(idxs), n):
+        blk = idxs[c : c + n]
+        if len(set(blk)) != len(blk):
+            rep.violation("C17:shuffle-cycle-not-permutation",
+                          f"{label}: cycle {c // n} of this consumer's Dataset.shuffle over {n} records hands out a record twice "
+                          f"(and skips another) while other consumers of the same file are active", case,
+                          "each record exactly once per cycle of n, per consumer", blk)
+            return False
+    return True
+
+
+def oracle_multi(rep, case, real):
+    what = f"{case['shape']} consumers of one {case['ds']['kind']} file with {len(case['ds']['rows'])} records"
+    if real["outcome"].startswith("does_not_stop"):
+        rep.violation("C17:does-not-stop", f"run did not finish: {what}", case, "termination", real["outcome"])
+        return
+    if real["outcome"] != "ok":
+        rep.violation("C17:unexpected-error", f"run failed: {what}", case, "ok", [real["outcome"], real["error"]])
+        return
+    n = len(case["ds"]["rows"])
+    for table, role, fn, cnt in multi_plan(case):
+        rows = real["tables"].get(table, [])
+        label = f"{what}: consumer {table} (Dataset.{fn}, {role})"
+        if role == "site":
+            if len(rows) != cnt:
+                rep.violation("C17:consumer-row-count", f"{label}: {len(rows)} rows, expected {cnt}", case, cnt, len(rows))
+                return
+            if not oracle_consumer(rep, case, rows, fn, label):
+                return
+        else:
+            tmp = common.Report("C17")
+            oracle_rows_in_order(tmp, dict(case, fn=fn), rows, cnt, "C17:for-each-rows", label)
+            if tmp.violations:
+                v = tmp.violations[0]
+                rep.violation(v["signature"], v["what"], case, v["expected"], v["observed"])
+                return
+
+
+def multi_model_requests(case, real):
+    """per consumer: a consume / for_each request with the recorded shuffles of ITS iterators"""
+    ds = case["ds"]
+    n = len(ds["rows"])
+    its = real["passes"]
+    plan = multi_plan(case)
+    # creation order of the iterator objects
+    roles = []
+    if case["shape"] == "parallel":
+        roles = list(range(len(plan)))
+    elif case["shape"] == "site_fe":
+        roles = [0] + [1] * plan[1][3]
+    else:
+        for _ in range(case["reps"]):
+            roles += [0] + [1] * n
+    if len(its) != len(roles):
+        return None, None
+    reqs, codes = [], []
+    for ci, (table, role, fn, cnt) in enumerate(plan):
+        mine = [its[i] for i, r in enumerate(roles) if r == ci]
+        rows = real["tables"].get(table, [])
+        if role == "site":
+            src = model_source(ds, "linear" if fn == "iterate" else "shuffle", mine[0])
+            if src is None:
+                return None, None
+            reqs.append(dict(src, m="c17.consume", repeat=True, count=cnt))
+            codes.append({"kind": "site", "rows": [row_record_index(r, "s0c", case) for r in rows], "error": False,
+                          "passes": len(mine[0])})
+        else:
+            mode = "linear" if fn == "iterate" else ("shuffle" if ds["kind"] == "csv" else "oracle")
+            req = {"m": "c17.for_each", "mode": mode, "n": n, "repeat": True, "execs": cnt}
+            if mode == "shuffle":
+                req["draws"] = [(p[0].get("draws", []) if p else []) for p in mine]
+            elif mode == "oracle":
+                first = ds["header"][0]
+                req["orders"] = [[index_of(r.get(first), ds) for r in (p[0].get("order", []) if p else [])] for p in mine]
+            chunks = [[[row_record_index(r, "c", case), as_int(r.get("ci"))] for r in rows[e : e + n]] for e in range(0, len(rows), n)]
+            reqs.append(req)
+            codes.append({"kind": "for_each", "rows": chunks, "starts": [len(p) for p in mine]})
+    if case["shape"] == "parallel" and len(plan) == 2:
+        # the same two consumers as ONE interleaved schedule of the pair machine (`DsIter.runTwo`)
+        ops = []
+        for _ in range(case["reps"]):
+            ops += [[True, "next"]] * case["consumers"][0]["q"] + [[False, "next"]] * case["consumers"][1]["q"]
+        a = {k: v for k, v in reqs[0].items() if k in ("mode", "draws", "orders", "repeat")}
+        b = {k: v for k, v in reqs[1].items() if k in ("mode", "draws", "orders", "repeat")}
+        reqs.append({"m": "c17.interleave", "n": n, "a": a, "b": b, "ops": ops})
+        codes.append({"kind": "interleave", "a": [["value", i] for i in codes[0]["rows"]], "b": [["value", i] for i in codes[1]["rows"]]})
+    return reqs, codes
+
+
+def compare_multi(rep, case, codes, answers):
+    for (st, val), c in zip(answers, codes):
+        if st != "ok":
+            rep.disagreement("c17.multi", case, answers, codes)
+            return
+        if c["kind"] == "site":
+            if val["rows"] != c["rows"] or val["error"] != c["error"] or val["passes"] != c["passes"]:
+                rep.disagreement("c17.multi:consume", case, val, c)
+                return
+        elif c["kind"] == "for_each":
+            if val["rows"] != c["rows"] or any(s != 1 for s in c["starts"]):
+                rep.disagreement("c17.multi:for_each", case, val, c)
+                return
+        elif val["a"] != c["a"] or val["b"] != c["b"]:
+            rep.disagreement("c17.multi:interleave", case, val, c)
+            return
+
+
+def gen_multi_case(rng):
+    ds = gen_dataset(rng, safe=True, n=rng.choice([1, 2, 3, 3, 4, 4, 5, 6, 7]),
+                     kind="csv" if rng.random() < 0.8 else "sql")
+    n = len(ds["rows"])
+    cols = pick_cols(rng, ds)
+    shape = rng.choice(["parallel", "parallel", "site_fe", "fe_fe"])
+    fn = lambda: rng.choice(["shuffle", "shuffle", "iterate"])  # noqa: E731
+    case = {"kind": "multi", "ds": ds, "dialect": rng.choice([2, 3]), "shape": shape, "cols": cols,
+            "reps": rng.choice([1, 2, 3, 4]), "seed": rng.randrange(2**32)}
+    if shape == "parallel":
+        k = rng.choice([2, 2, 3])
+        # counts that are not multiples of n, different per consumer: the cycles interleave
+        case["consumers"] = [{"fn": fn(), "q": rng.choice([1, 2, max(n - 1, 1), n + 1, n + 2, 2 * n - 1 or 1, rng.randint(1, 9)])}
+                             for _ in range(k)]
+        case["reps"] = rng.choice([2, 3, 4, 5])
+    elif shape == "site_fe":
+        case.update(site_fn=fn(), inner_fn=fn(), inner_place=rng.choice(["nested", "friend"]), p=rng.choice([2, 3, n + 1, 2 * n]))
+        case["reps"] = rng.choice([1, 2])
+    else:
+        case.update(outer_fn=fn(), inner_fn=fn(), inner_place=rng.choice(["nested", "friend"]))
+        case["reps"] = rng.choice([1, 2])
+    return case
+
+
 # ----------------------------------------------------------------------------- model requests and comparison
 
 
@@ -954,7 +1180,7 @@ def compare_with_model(rep, case, req, code, answers):
             rep.disagreement("c17.update", case, val, code)
 
 
-RUNNERS = {"iter": (run_iter_case, oracle_iter), "site": (run_site_case, oracle_site),
+RUNNERS = {"multi": (run_multi_case, oracle_multi), "iter": (run_iter_case, oracle_iter), "site": (run_site_case, oracle_site),
            "for_each": (run_for_each_case, oracle_for_each), "update": (run_update_case, oracle_update)}
 
 
@@ -1006,11 +1232,17 @@ def check_cases(cases, rep, with_model=True):
                 rep.count("site:two-sites")
         elif kind == "for_each":
             rep.count(f"for_each:{case['fn']}:{case['placement']}:repeat={case['repeat']}")
+        elif kind == "multi":
+            fns = [c["fn"] for c in case.get("consumers", [])] or [case.get("site_fn") or case.get("outer_fn"), case.get("inner_fn")]
+            rep.count(f"multi:{case['shape']}:{'+'.join(sorted(fns))}")
         elif kind == "update":
             rep.count(f"update:output={case.get('output', 'capture')}:reps={case['reps']}")
         if len(rep.violations) > nviol or not with_model:
             continue  # the oracle already explains this case
-        req, code = model_request(case, real)
+        if kind == "multi":
+            req, code = multi_model_requests(case, real)
+        else:
+            req, code = model_request(case, real)
         if req is None:
             rep.count("model:not-compared")
             continue
@@ -1022,7 +1254,10 @@ def check_cases(cases, rep, with_model=True):
         ans = answers[pos : pos + len(reqs)]
         pos += len(reqs)
         rep.traces_validated += 1
-        compare_with_model(rep, case, reqs, code, ans)
+        if case["kind"] == "multi":
+            compare_multi(rep, case, code, ans)
+        else:
+            compare_with_model(rep, case, reqs, code, ans)
 
 
 # ----------------------------------------------------------------------------- generation
@@ -1156,6 +1391,8 @@ def run(ctx, rep, findings):
         cases.append(gen_for_each_case(rng))
     for _ in range(ctx.scale(300, 3000)):
         cases.append(gen_update_case(rng))
+    for _ in range(ctx.scale(260, 2600)):
+        cases.append(gen_multi_case(rng))
     # D16 family (repaired by bc0f717): update_key + CSV output stays generated as a regression stream
     for _ in range(ctx.scale(3, 20)):
         c = gen_update_case(rng)
@@ -1217,6 +1454,15 @@ def shrink(case, signature):
             c = copy.deepcopy(best)
             c["sites"] = 1
             cands.append(c)
+        for i, cons in enumerate(best.get("consumers", [])):
+            if len(best["consumers"]) > 2:
+                c = copy.deepcopy(best)
+                del c["consumers"][i]
+                cands.append(c)
+            if cons["q"] > 1:
+                c = copy.deepcopy(best)
+                c["consumers"][i]["q"] = cons["q"] - 1
+                cands.append(c)
         if len(best.get("cols", [])) > 1:
             c = copy.deepcopy(best)
             c["cols"] = c["cols"][:1]
